@@ -155,6 +155,8 @@ pub struct Remote {
     attached: Option<trigger::Receiver>,
     /// Number of frames received when the world first became quiescent.
     pub frames_at_quiescence: Option<usize>,
+    /// Whether the completion promise had been resolved when the world first became quiescent.
+    pub completed_at_quiescence: bool,
 }
 
 /// A command target created on demand when the agent asks for a commander channel.
@@ -449,6 +451,7 @@ impl World for AsWorld {
                 completion_reason: None,
                 attached: Some(att_done_rx),
                 frames_at_quiescence: None,
+                completed_at_quiescence: false,
             });
         }
         AsWorld {
@@ -525,8 +528,21 @@ impl World for AsWorld {
             if !self.quiescent_seen {
                 self.quiescent_seen = true;
                 self.truth_at_quiescence = Some(self.truth.entries.lock().len());
+                let qflag = WakeFlag::new(false);
+                let qwaker = qflag.waker();
+                let mut qcx = Context::from_waker(&qwaker);
                 for r in self.remotes.iter_mut() {
                     r.frames_at_quiescence = Some(r.frames.len());
+                    if let Some(c) = r.completion.as_mut() {
+                        if let Poll::Ready(res) = Pin::new(c).poll(&mut qcx) {
+                            r.completed_at_quiescence = true;
+                            r.completion_reason = Some(match res {
+                                Ok(reason) => format!("{:?}", reason),
+                                Err(_) => "promise dropped".to_string(),
+                            });
+                            r.completion = None;
+                        }
+                    }
                 }
                 if self.cfg.reporting {
                     let s = self.snapshot_reports();
@@ -747,6 +763,12 @@ impl World for AsWorld {
                 self.log(format!("remote {} dropped", i));
             }
             _ => {}
+        }
+        if self.trace_on && self.cfg.reporting {
+            self.poll_link_requests();
+            let s = self.snapshot_reports();
+            let brief: Vec<String> = s.iter().filter(|(_, v)| v.map(|x| x.0 > 0).unwrap_or(true)).map(|(n, v)| format!("{}={:?}", n, v.map(|x| x.0))).collect();
+            self.log(format!("link counts: {}", brief.join(" ")));
         }
     }
 
